@@ -23,8 +23,9 @@ func (k msgServer) Cancel(goCtx context.Context, msg *types.MsgCancel) (*types.M
 	isCreator := false
 	if order.Creator == msg.Creator {
 		isCreator = true
-	} else {
-		node, found := k.node.GetNode(ctx, msg.Provider)
+	} else if msg.Provider == order.Provider {
+		// only the gateway the order was placed through can vouch for its creator
+		node, found := k.node.GetNode(ctx, order.Provider)
 		if found {
 			for _, address := range node.TxAddresses {
 				if order.Creator == address {
